@@ -462,6 +462,16 @@ func init() {
 						if g.Kind == "typecase" && !g.Neg && len(g.Vals) == 1 && types.ExprString(g.Vals[0]) == "*types.Func" {
 							ok = true
 						}
+						// the same test written as a comma-ok assertion
+						if g.Kind == "bool" && !g.Neg {
+							if v := get.varOf(g.Expr); v != nil {
+								if d := get.singleDef(v); d != nil && d.idx == 1 {
+									if ta, isTA := ast.Unparen(d.rhs).(*ast.TypeAssertExpr); isTA && ta.Type != nil && types.TypeString(get.Info.TypeOf(ta.Type), nil) == "*go/types.Func" {
+										ok = true
+									}
+								}
+							}
+						}
 					}
 				}
 				r.Check(ok, "get/func-case", get.Decl.Pos(), "every *types.Func named in a set is converted by processFuncProvider")
